@@ -46,8 +46,13 @@ RULES = {
     "producing node) is given only when `_graph` is None; with the producer's graph first, an output of graph B whose producer lives in "
     "graph A reports A as its graph while it is listed in B.outputs and not in A.outputs (`is_graph_output()` and `graph` contradict "
     "the lists)",
+    "R11": "the ownership link outlives every role but the last: each of the three graph collections, when it releases a value, clears "
+    "`value._graph` only if the value has neither of the two roles the other collections maintain (graph input, graph output, "
+    "initializer) - the statement that clears the link is governed by tests that cover both other role flags (or by the one helper "
+    "that tests all three); a test copied from a sibling that names the collection's own flag, which was just cleared, lets an "
+    "initializer that is still a graph output lose its graph while it stays listed in the outputs",
 }
-FLOORS = {"R1": 30, "R1b": 4, "R2": 70, "R3": 10, "R4": 4, "R5": 8, "R6": 40, "R7": 12, "R8": 1, "R9": 40, "R10": 1}
+FLOORS = {"R1": 30, "R1b": 4, "R2": 70, "R3": 10, "R4": 4, "R5": 8, "R6": 40, "R7": 12, "R8": 1, "R9": 40, "R10": 1, "R11": 3}
 EXPLANATION = (
     "Enumerates every method of collections.UserList/UserDict (parsed from the interpreter's own "
     "source) that writes self.data and checks how GraphInputs/GraphOutputs/GraphInitializers resolve "
@@ -1208,9 +1213,65 @@ def rule_r10(ctx):
     ctx.require(any(isinstance(x, ast.Attribute) and x.attr == "_graph" for x in ast.walk(g.node)), "Value.graph does not read the ownership link `_graph`")
 
 
+def rule_r11(ctx):
+    repo = ctx.repo
+    roles = {"_is_graph_input": "is_graph_input", "_is_graph_output": "is_graph_output", "_is_initializer": "is_initializer"}
+    value_cls = repo.cls("onnx_ir._core:Value")
+    # helpers of Value that test all three role flags
+    all_three = {m.name for m in value_cls.methods.values() if not isinstance(m.node, ast.Lambda)
+                 and all(any(isinstance(x, ast.Attribute) and x.attr == fl for x in ast.walk(m.node)) for fl in roles)}
+    n = 0
+    for cname in ("GraphInputs", "GraphOutputs", "GraphInitializers"):
+        k = repo.cls(f"onnx_ir._graph_containers:{cname}")
+        f = k.methods.get("_maybe_unset_graph")
+        ctx.require(f is not None and len(f.params) >= 2, f"{cname}._maybe_unset_graph not found")
+        v = f.params[1]
+        own = [a.targets[0].attr for a in own_nodes(f.node) if isinstance(a, ast.Assign) and isinstance(a.targets[0], ast.Attribute) and norm(a.targets[0].value) == v
+               and a.targets[0].attr in roles and isinstance(a.value, ast.Constant) and a.value.value is False]
+        ctx.require(len(own) == 1, f"{cname}._maybe_unset_graph: the role flag it clears was not found")
+        others = set(roles) - {own[0]}
+        clears = [a for a in own_nodes(f.node) if isinstance(a, ast.Assign) and isinstance(a.targets[0], ast.Attribute) and norm(a.targets[0].value) == v
+                  and a.targets[0].attr == "_graph" and isinstance(a.value, ast.Constant) and a.value.value is None]
+        ctx.require(bool(clears), f"{cname}._maybe_unset_graph: the statement clearing value._graph was not found")
+        for a in clears:
+            n += 1
+            tests = []
+            child, par = a, getattr(a, "_parent", None)
+            while par is not None:
+                for fld in ("body", "orelse"):
+                    blk = getattr(par, fld, None)
+                    if isinstance(blk, list) and child in blk:
+                        tests += [p_.test for p_ in blk[: blk.index(child)] if isinstance(p_, ast.If) and not p_.orelse and p_.body and isinstance(p_.body[-1], ast.Return)]
+                        if isinstance(par, ast.If):
+                            tests.append(par.test)
+                if par is f.node:
+                    break
+                child, par = par, getattr(par, "_parent", None)
+            covered = set()
+            for t in tests:
+                for x in ast.walk(t):
+                    if isinstance(x, ast.Attribute) and norm(x.value) == v and x.attr in roles:
+                        covered.add(x.attr)
+                    if isinstance(x, ast.Call) and isinstance(x.func, ast.Attribute) and norm(x.func.value) == v:
+                        if x.func.attr in all_three:
+                            covered |= set(roles)
+                        for fl, meth in roles.items():
+                            if x.func.attr == meth:
+                                covered.add(fl)
+            missing = sorted(others - covered)
+            ctx.check("R11", f"{cname}._maybe_unset_graph: the link is cleared only when the value has neither other role", not missing, f, a,
+                      f"`{norm(a)}` is governed by tests that do not ask about {missing}: a value released from {cname} that still has that role - it is still listed by the "
+                      "graph - loses `_graph`, so `value.graph` is None while `is_graph_output()` / `is_graph_input()` / `is_initializer()` is True, and releasing it "
+                      "from the other collection later fails its own assertion",
+                      how="role flags mentioned by the tests that govern `value._graph = None` (guard clauses and enclosing ifs), directly or through a helper of Value that reads all three",
+                      construct=f"{cname} clears the graph link without asking about {missing}")
+    ctx.require(n >= 3, f"only {n} link-clearing statements found in the graph collections")
+
+
 def run(ctx):
     from ..shared import rule_s17
 
+    rule_r11(ctx)
     rule_r10(ctx)
 
     rule_s17(ctx, "R9", lambda f: f.module.name in ("onnx_ir._core", "onnx_ir._graph_containers", "onnx_ir._linked_list", "onnx_ir._convenience", "onnx_ir._name_authority"),
